@@ -633,7 +633,9 @@ P("len_concat_parts", lambda t: t.dd.concat([t.df, t.df3]).shape[0])
 
 
 # further interplay programs (second seeding round)
-P("proj_shared_scalar_and_list", lambda t: (lambda x: x[x["b"] > 3][["b"]])(t.df.fillna({"b": 0.0})))
+P("proj_shared_scalar_and_list", lambda t: (lambda x: x[x["b"] > 3][["b"]])(t.df[["a", "b", "u"]].fillna(0)))
+P("proj_shared_list_then_scalar_filter", lambda t: (lambda x: x[["u"]][x["u"] > 6])(t.df[["a", "b", "u"]].shift(1)), tags={"window"})
+P("proj_shared_scalar_and_list_where", lambda t: (lambda x: x[x["u"] > 5][["u"]])(t.df[["a", "u"]].where(t.df[["a", "u"]] > 2, 0)))
 P("proj_shared_scalar_and_list_shift", lambda t: (lambda x: x[x["u"] > 3][["u"]])(t.df.assign(u=t.df.u.shift(1))), tags={"window"})
 P("intlabels_reset_index_select_index", lambda t: t.df[["a", "u"]].rename(columns={"u": 0, "a": 1}).set_index(0)[1].reset_index()[0] if t.lazy else t.df[["a", "u"]].rename(columns={"u": 0, "a": 1}).set_index(0).sort_index(kind="stable")[1].reset_index()[0], index_free=True, tags={"sort"})
 P("intlabels_reset_index_select_value", lambda t: t.df[["a", "u"]].rename(columns={"u": 0, "a": 1}).set_index(0)[1].reset_index()[1] if t.lazy else t.df[["a", "u"]].rename(columns={"u": 0, "a": 1}).set_index(0).sort_index(kind="stable")[1].reset_index()[1], index_free=True, tags={"sort"})
